@@ -19,6 +19,7 @@ CONSTANTS
   MaxNet = 0
   W = {"Env:S5Free"}
   MayTimeout = {a, b, c}
+  MayLink = {}
   Gen = FALSE
 SPECIFICATION Spec
 INVARIANTS ElectionSafety LogMatching NoViolation TypeOK
